@@ -2,7 +2,7 @@
   C06 — timestamps keep their instant and zone through every constructor and codec.
 
   Statements are about the model `Hs.Model.Tz` of `fixed_timezone`, `make_date_time`,
-  `make_date_time_with_tz`, `find_timezone`, `timezone_short_name`, the Zinc reader/writer and the
+  `make_date_time_with_tz`, `make_date_time_from_text`, `find_timezone`, `timezone_short_name`, the Zinc reader/writer and the
   Hayson reader/writer for DateTime (at the level of fields: local seconds, nanoseconds, offset text,
   zone name) and the C constructors/getters.  They quantify over ALL instants (any `Int` seconds, any
   nanoseconds), all offsets, all zone names (`List Char`), and — table theorems — over every zone id
@@ -12,6 +12,10 @@
     `EtcOk db`    — `Etc/GMT∓N` (N = 0: `UTC`) has the constant offset ±N h;
     `OffsetOk o`  — the offset of the written timestamp is a whole number of minutes in −12 h … +14 h
                     (true of every zone of the database between 1980 and 2060; checked by the harness).
+  `C06_rt_subminute` drops `OffsetOk`: the offset may have seconds (local mean time: Amsterdam +0:19:32
+  until 1937); the text carries it rounded to the minute and the readers recover the instant from the
+  exact wall-clock time, wherever the zone's offset is the same at the instant the text seems to denote
+  (`TextDomain.stable`, the condition `make_date_time_from_text` checks).
   The model is tied to the code by the correspondence check and by the translator's shape assertions.
 -/
 import Hs.Lemmas.Tz
@@ -101,14 +105,37 @@ theorem utc_offset (db : TzDb) (hdb : EtcOk db) (t : Int) : db.offsetAt utcName 
   have := hdb 0 (by decide) t
   simpa [etcName] using this
 
-/-- **Zinc**: reading what the writer wrote gives the same timestamp — same instant, same zone, hence
-(the offset being a function of zone and instant) the same local offset and the same zone name;
-on either side of any transition, since nothing but `OffsetOk` is assumed of the offset -/
-theorem C06_zinc_rt (db : TzDb) (hdb : EtcOk db) (d : DT) (hd : InDomain db d) :
-    zincDec (zincEnc db d) = .ok d := by
-  obtain ⟨secs, ns, z⟩ := d
+/-- a timestamp whose text can be read back, WHATEVER its offset (whole minutes or not): a zone of the
+database with an unambiguous city name; an offset below 23:59:30 either way, so that rounded to the
+minute it is below 24 h (`+24:00` is not an offset a reader takes); and the zone has the same offset at
+the instant the minute-precision text seems to denote, `offset − rounded offset` (at most 30) seconds
+away — the condition `make_date_time_from_text` checks before it takes the wall-clock time as exact -/
+structure TextDomain (db : TzDb) (d : DT) : Prop where
+  zone : d.tzid ∈ zones
+  unamb : Unambiguous d.tzid
+  range : (d.offset db).natAbs < 86370
+  stable : db.offsetAt d.tzid (d.secs + (d.offset db - roundMin (d.offset db))) = d.offset db
+
+/-- the first step of the Hayson reader (`DateTime::parse_from_rfc3339(val)`) accepts the written offset:
+a rounded offset of whole hours has its `Etc/GMT∓N` zone (−12 … +14); any other is taken as UTC -/
+def HaysonOk (off : Int) : Prop := roundMin off % 3600 = 0 → -43200 ≤ roundMin off ∧ roundMin off ≤ 50400
+
+/-- where the offset is a whole number of minutes the text carries it as it is and nothing needs checking -/
+theorem InDomain.text {db : TzDb} {d : DT} (hd : InDomain db d) : TextDomain db d ∧ HaysonOk (d.offset db) := by
   obtain ⟨hz, hu, h60, hlo, hhi⟩ := hd
-  simp only [DT.offset] at h60 hlo hhi
+  have hr := roundMin_of_whole h60
+  refine ⟨⟨hz, hu, by omega, ?_⟩, ?_⟩
+  · rw [hr, Int.sub_self, Int.add_zero]; rfl
+  · intro _; rw [hr]; exact ⟨hlo, hhi⟩
+
+/-- **Zinc, any offset** (new with `make_date_time_from_text`): the writer prints the exact wall-clock time
+and the offset rounded to the minute (`+00:20` for Amsterdam's +0:19:32); the reader gives back the same
+timestamp — instant, nanoseconds and zone -/
+theorem C06_zinc_rt_subminute (db : TzDb) (hdb : EtcOk db) (d : DT) (hd : TextDomain db d) :
+    zincDec db (zincEnc db d) = .ok d := by
+  obtain ⟨secs, ns, z⟩ := d
+  obtain ⟨hz, hu, hrange, hst⟩ := hd
+  simp only [DT.offset] at hrange hst
   by_cases hutc : z = utcName
   · subst hutc
     have h0 := utc_offset db hdb secs
@@ -120,32 +147,69 @@ theorem C06_zinc_rt (db : TzDb) (hdb : EtcOk db) (d : DT) (hd : InDomain db d) :
     by_cases h0 : db.offsetAt z secs = 0
     · simp [zincEnc, zincDec, DT.isUtc, DT.localSecs, DT.offset, DT.short, hb, h0, rfcOffsetText, parseOffTxt, hlex,
         hsn, makeDateTimeWithTz, hres]
-    · have hp := parseOffTxt_offsetText (db.offsetAt z secs) h60 (by omega) h0
-      have hlt : (db.offsetAt z secs).natAbs < 86400 := by omega
+    · have hp := parseOffTxt_rfcOffsetText (db.offsetAt z secs) (by omega) h0
+      have hlt : ((db.offsetAt z secs).natAbs + 30) / 60 * 60 < 86400 := by omega
+      have hex := fromText_exact db secs ns (shortName z) z hres hst
+      have hna := roundMin_natAbs (db.offsetAt z secs)
+      have hbd := roundMin_bounds (db.offsetAt z secs)
       simp only [zincEnc, zincDec, DT.isUtc, DT.localSecs, DT.offset, DT.short, hb, hp, hlex, hsn, hlt, if_true,
-        if_false, Bool.false_eq_true, makeDateTimeWithTz, hres]
+        if_false, Bool.false_eq_true]
       by_cases hpos : 0 < db.offsetAt z secs
-      · simp only [hpos, decide_true, if_true, Res.ok.injEq, DT.mk.injEq, and_true]; omega
-      · simp only [hpos, decide_false, Bool.false_eq_true, if_false, Res.ok.injEq, DT.mk.injEq, and_true]; omega
+      · have e1 : (((db.offsetAt z secs).natAbs + 30) / 60 * 60 : Nat) = roundMin (db.offsetAt z secs) := by omega
+        simp only [hpos, decide_true, if_true, e1]
+        rw [show secs + db.offsetAt z secs - roundMin (db.offsetAt z secs)
+              = secs + (db.offsetAt z secs - roundMin (db.offsetAt z secs)) by omega]
+        exact hex
+      · have e1 : -((((db.offsetAt z secs).natAbs + 30) / 60 * 60 : Nat) : Int) = roundMin (db.offsetAt z secs) := by omega
+        have e2 : secs + db.offsetAt z secs + ((((db.offsetAt z secs).natAbs + 30) / 60 * 60 : Nat) : Int)
+            = secs + (db.offsetAt z secs - roundMin (db.offsetAt z secs)) := by omega
+        simp only [hpos, decide_false, Bool.false_eq_true, if_false, e1, e2]
+        exact hex
 
-/-- **Hayson**: likewise -/
-theorem C06_json_rt (db : TzDb) (hdb : EtcOk db) (d : DT) (hd : InDomain db d) :
-    jsonDec (jsonEnc db d) = .ok d := by
+/-- **Hayson, any offset**: likewise, when the reader's first step accepts the written offset -/
+theorem C06_json_rt_subminute (db : TzDb) (hdb : EtcOk db) (d : DT) (hd : TextDomain db d)
+    (hj : HaysonOk (d.offset db)) : jsonDec db (jsonEnc db d) = .ok d := by
   obtain ⟨secs, ns, z⟩ := d
-  obtain ⟨hz, hu, hoff⟩ := hd
-  simp only [DT.offset] at hoff
-  have hm := C06_rfc_accepts (secs + db.offsetAt z secs) ns (db.offsetAt z secs) hoff
+  obtain ⟨hz, hu, hrange, hst⟩ := hd
+  simp only [DT.offset] at hrange hst hj
+  have hbd := roundMin_bounds (db.offsetAt z secs)
+  have hna := roundMin_natAbs (db.offsetAt z secs)
+  have hok : RfcOk (roundMin (db.offsetAt z secs)) := ⟨hbd.1, by omega, hj⟩
+  have hm : makeDateTime (secs + db.offsetAt z secs) ns (roundMin (db.offsetAt z secs)) =
+      .ok ⟨secs + db.offsetAt z secs - roundMin (db.offsetAt z secs), ns,
+        if roundMin (db.offsetAt z secs) % 3600 = 0 then etcName (roundMin (db.offsetAt z secs) / 3600) else utcName⟩ := by
+    simp only [makeDateTime, rfcZone_ok' _ hok]
   by_cases hutc : z = utcName
   · subst hutc
     have h0 := utc_offset db hdb secs
     rw [h0] at hm
-    have hm' : makeDateTime secs ns 0 = .ok ⟨secs, ns, utcName⟩ := by simpa [etcName] using hm
-    simp [jsonEnc, jsonDec, DT.isUtc, DT.localSecs, DT.offset, h0, hm']
+    have hm' : makeDateTime secs ns 0 = .ok ⟨secs, ns, utcName⟩ := by simpa [etcName, roundMin] using hm
+    simp [jsonEnc, jsonDec, DT.isUtc, DT.localSecs, DT.offset, h0, hm', roundMin]
   · have hres := short_resolves hz hu
     have hb : (z == utcName) = false := by simpa using hutc
-    simp only [jsonEnc, jsonDec, DT.isUtc, DT.localSecs, DT.offset, DT.short, hb, hm, Bool.false_eq_true, if_false,
-      makeDateTimeWithTz, hres, Res.ok.injEq, DT.mk.injEq, and_true]
-    omega
+    have hex := fromText_exact db secs ns (shortName z) z hres hst
+    simp only [jsonEnc, jsonDec, DT.isUtc, DT.localSecs, DT.offset, DT.short, hb, hm, Bool.false_eq_true, if_false]
+    rw [show secs + db.offsetAt z secs - roundMin (db.offsetAt z secs)
+          = secs + (db.offsetAt z secs - roundMin (db.offsetAt z secs)) by omega]
+    exact hex
+
+/-- **the text of a timestamp denotes it, whatever the offset of its zone**: for ANY offset below 23:59:30
+either way — whole minutes or not — at an instant where the zone's offset is locally constant in the sense
+the code checks, writing (exact wall-clock time, offset rounded to the minute, city name) and reading back
+gives the same timestamp, through Zinc and through Hayson -/
+theorem C06_rt_subminute (db : TzDb) (hdb : EtcOk db) (d : DT) (hd : TextDomain db d) :
+    zincDec db (zincEnc db d) = .ok d ∧ (HaysonOk (d.offset db) → jsonDec db (jsonEnc db d) = .ok d) :=
+  ⟨C06_zinc_rt_subminute db hdb d hd, C06_json_rt_subminute db hdb d hd⟩
+
+/-- **Zinc**: reading what the writer wrote gives the same timestamp — same instant, same zone, hence
+(the offset being a function of zone and instant) the same local offset and the same zone name;
+on either side of any transition, since nothing but `OffsetOk` is assumed of the offset -/
+theorem C06_zinc_rt (db : TzDb) (hdb : EtcOk db) (d : DT) (hd : InDomain db d) :
+    zincDec db (zincEnc db d) = .ok d := C06_zinc_rt_subminute db hdb d hd.text.1
+
+/-- **Hayson**: likewise -/
+theorem C06_json_rt (db : TzDb) (hdb : EtcOk db) (d : DT) (hd : InDomain db d) :
+    jsonDec db (jsonEnc db d) = .ok d := C06_json_rt_subminute db hdb d hd.text.1 hd.text.2
 
 /-- **C API**: the constructor given UTC fields and the zone id or city name builds that instant in that
 zone; the getters return the UTC fields, the local fields (instant + offset) and the city name -/
@@ -162,7 +226,7 @@ def C06_full : Prop :=
   (∀ loc ns off, OffsetOk off → ∃ dt, makeDateTime loc ns off = .ok dt) ∧
   (∀ secs ns name z, z ∈ zones → (name = z ∨ (Unambiguous z ∧ name = shortName z)) →
     makeDateTimeWithTz secs ns name = .ok ⟨secs, ns, z⟩) ∧
-  (∀ db, EtcOk db → ∀ d, InDomain db d → zincDec (zincEnc db d) = .ok d ∧ jsonDec (jsonEnc db d) = .ok d)
+  (∀ db, EtcOk db → ∀ d, InDomain db d → zincDec db (zincEnc db d) = .ok d ∧ jsonDec db (jsonEnc db d) = .ok d)
 
 theorem C06_holds : C06_full :=
   ⟨C06_rfc, fun loc ns off h => ⟨_, C06_rfc_accepts loc ns off h⟩, C06_with_tz,
@@ -208,12 +272,105 @@ theorem sydney_in_domain (secs : Int) (ns : Nat) : InDomain sampleDb ⟨secs, ns
 
 /-- … so the round-trip theorems apply to it at every instant -/
 example (secs : Int) (ns : Nat) :
-    zincDec (zincEnc sampleDb ⟨secs, ns, "Australia/Sydney".toList⟩) = .ok ⟨secs, ns, "Australia/Sydney".toList⟩ :=
+    zincDec sampleDb (zincEnc sampleDb ⟨secs, ns, "Australia/Sydney".toList⟩) = .ok ⟨secs, ns, "Australia/Sydney".toList⟩ :=
   C06_zinc_rt sampleDb sampleDb_ok _ (sydney_in_domain secs ns)
 
 set_option maxRecDepth 100000 in
 /-- `+10:00` (two hour digits) and `+05:30` (minutes) keep their instant -/
 example : makeDateTime 36000 0 36000 = .ok ⟨0, 0, "Etc/GMT-10".toList⟩ ∧
     makeDateTime 19800 5 19800 = .ok ⟨0, 5, "UTC".toList⟩ := by decide +kernel
+
+/-! ### non-vacuity of `C06_rt_subminute`: offsets with seconds -/
+
+/-- the text offsets of local mean time: Amsterdam +0:19:32 is written `+00:20` (rounded, not truncated),
+Krasnoyarsk +6:11:26 `+06:11`, New_York −4:56:02 `-04:56`; 20 s either way `+00:00` / `-00:00`, never `Z` -/
+example : rfcOffsetText 1172 = "+00:20".toList ∧ rfcOffsetText 22286 = "+06:11".toList ∧
+    rfcOffsetText (-17762) = "-04:56".toList ∧ rfcOffsetText 20 = "+00:00".toList ∧
+    rfcOffsetText (-20) = "-00:00".toList ∧ rfcOffsetText 0 = "Z".toList ∧
+    roundMin 1172 = 1200 ∧ roundMin 22286 = 22260 ∧ roundMin (-17762) = -17760 ∧ roundMin (-30) = -60 := by decide
+
+/-- a sample database with local mean time: Amsterdam +0:19:32 before an instant in 1937 and +0:20 from
+then on, Krasnoyarsk +6:11:26, New_York −4:56:02, Sydney at an offset no text can carry -/
+def lmtDb : TzDb where
+  offsetAt z t :=
+    match etcHours.find? (fun n => etcName n == z) with
+    | some n => n * 3600
+    | none =>
+      if z = "Europe/Amsterdam".toList then (if t < -1025740800 then 1172 else 1200)
+      else if z = "Asia/Krasnoyarsk".toList then 22286
+      else if z = "America/New_York".toList then -17762
+      else if z = "Australia/Sydney".toList then 86370
+      else 0
+
+theorem lmtDb_ok : EtcOk lmtDb := by
+  intro n hn t
+  have hfind : etcHours.all (fun n => etcHours.find? (fun m => etcName m == etcName n) == some n) = true := by
+    decide +kernel
+  have := List.all_eq_true.1 hfind n hn
+  simp only [beq_iff_eq] at this
+  simp only [lmtDb, this]
+
+theorem unambiguous_of_table (z : List Char)
+    (h : zones.all (fun w => shortName w != shortName z || w == z) = true) : Unambiguous z := by
+  intro w hw hs
+  have := List.all_eq_true.1 h w hw
+  simp only [Bool.or_eq_true, bne_iff_ne, ne_eq, beq_iff_eq] at this
+  rcases this with h | h
+  · exact absurd hs h
+  · exact h
+
+set_option maxRecDepth 100000 in
+/-- Amsterdam in its mean-time period, at every instant of it: the hypotheses of `C06_rt_subminute` hold
+(the text seems to denote an instant 28 s earlier, where the offset is the same) -/
+theorem amsterdam_in_text_domain (secs : Int) (ns : Nat) (h : secs < -1025740800) :
+    TextDomain lmtDb ⟨secs, ns, "Europe/Amsterdam".toList⟩ ∧ HaysonOk (lmtDb.offsetAt "Europe/Amsterdam".toList secs) := by
+  have hnone : etcHours.find? (fun n => etcName n == "Europe/Amsterdam".toList) = none := by decide +kernel
+  have hoff : ∀ t, t < -1025740800 → lmtDb.offsetAt "Europe/Amsterdam".toList t = 1172 := by
+    intro t ht
+    simp only [lmtDb, hnone, if_true, ht]
+  have hr : roundMin 1172 = 1200 := by decide
+  refine ⟨⟨?_, ?_, ?_, ?_⟩, ?_⟩
+  · show "Europe/Amsterdam".toList ∈ zones
+    decide +kernel
+  · show Unambiguous "Europe/Amsterdam".toList
+    exact unambiguous_of_table "Europe/Amsterdam".toList (by decide +kernel)
+  · simp only [DT.offset, hoff secs h]; decide
+  · simp only [DT.offset, hoff secs h, hr]
+    exact hoff _ (by omega)
+  · simp only [HaysonOk, hoff secs h, hr]; decide
+
+/-- … so the text of such a timestamp is read back as the timestamp itself -/
+example (secs : Int) (ns : Nat) (h : secs < -1025740800) :
+    zincDec lmtDb (zincEnc lmtDb ⟨secs, ns, "Europe/Amsterdam".toList⟩) = .ok ⟨secs, ns, "Europe/Amsterdam".toList⟩ ∧
+    jsonDec lmtDb (jsonEnc lmtDb ⟨secs, ns, "Europe/Amsterdam".toList⟩) = .ok ⟨secs, ns, "Europe/Amsterdam".toList⟩ :=
+  ⟨(C06_rt_subminute lmtDb lmtDb_ok _ (amsterdam_in_text_domain secs ns h).1).1,
+   (C06_rt_subminute lmtDb lmtDb_ok _ (amsterdam_in_text_domain secs ns h).1).2 (amsterdam_in_text_domain secs ns h).2⟩
+
+set_option maxRecDepth 100000 in
+/-- the same by evaluation, on the texts the real code writes: `1209-06-21T05:39:32+00:20 Amsterdam`
+(UTC seconds −24000000000), `…T11:31:26+06:11 Krasnoyarsk`, `…T00:23:58-04:56 New_York` -/
+example :
+    zincEnc lmtDb ⟨-24000000000, 0, "Europe/Amsterdam".toList⟩ = ⟨-23999998828, 0, "+00:20".toList, some "Amsterdam".toList⟩ ∧
+    zincDec lmtDb ⟨-23999998828, 0, "+00:20".toList, some "Amsterdam".toList⟩ = .ok ⟨-24000000000, 0, "Europe/Amsterdam".toList⟩ ∧
+    zincDec lmtDb ⟨-23999977714, 0, "+06:11".toList, some "Krasnoyarsk".toList⟩ = .ok ⟨-24000000000, 0, "Asia/Krasnoyarsk".toList⟩ ∧
+    zincDec lmtDb ⟨-24000017762, 5, "-04:56".toList, some "New_York".toList⟩ = .ok ⟨-24000000000, 5, "America/New_York".toList⟩ ∧
+    jsonDec lmtDb ⟨-23999977714, 0, 22260, some "Krasnoyarsk".toList⟩ = .ok ⟨-24000000000, 0, "Asia/Krasnoyarsk".toList⟩ ∧
+    jsonDec lmtDb ⟨-24000017762, 0, -17760, some "New_York".toList⟩ = .ok ⟨-24000000000, 0, "America/New_York".toList⟩ := by
+  decide +kernel
+
+set_option maxRecDepth 100000 in
+/-- a text whose offset is NOT the zone's rounded offset (here truncated: `+00:19`) is taken at its word,
+and so is any text where the zone's offset is whole minutes (Amsterdam at +0:20) -/
+example :
+    zincDec lmtDb ⟨-23999998828, 0, "+00:19".toList, some "Amsterdam".toList⟩ = .ok ⟨-23999999968, 0, "Europe/Amsterdam".toList⟩ ∧
+    zincDec lmtDb ⟨1200, 0, "+00:20".toList, some "Amsterdam".toList⟩ = .ok ⟨0, 0, "Europe/Amsterdam".toList⟩ := by
+  decide +kernel
+
+set_option maxRecDepth 100000 in
+/-- the bound of `TextDomain.range` is sharp: an offset of 23:59:30 is written `+24:00`, which the Zinc
+reader does not take for an offset (`FixedOffset::east_opt` is `None`): the wall-clock time is read as UTC -/
+example : (zincEnc lmtDb ⟨0, 0, "Australia/Sydney".toList⟩).offTxt = "+24:00".toList ∧
+    zincDec lmtDb (zincEnc lmtDb ⟨0, 0, "Australia/Sydney".toList⟩) = .ok ⟨86370, 0, "Australia/Sydney".toList⟩ := by
+  decide +kernel
 
 end Hs.C06
